@@ -23,6 +23,15 @@ def cases(draw):
             t.setdefault('acts', {}).setdefault('body', []).append(['probe'])
     opts = {'buffer': draw(st.sampled_from([True, True, True, False])), 'verbose': draw(st.integers(0, 3)),
             'repeat': draw(st.sampled_from([1, 1, 2])), 'shuffle': draw(st.one_of(st.none(), st.integers(0, 99)))}
+    if not opts['buffer'] and draw(st.booleans()):
+        # a layer whose testSetUp installs private streams and whose testTearDown removes them: without --buffer the
+        # runner never replaces sys.stdout/sys.stderr, so they must stay in place through the whole test
+        L = spec['layers'][draw(st.integers(0, len(spec['layers']) - 1))]
+        L.setdefault('acts', {}).setdefault('testSetUp', []).append(['swap', 'save'])
+        L['acts'].setdefault('testTearDown', [])[:0] = [['probe_private'], ['swap', 'restore']]
+        spec['layer_swaps'] = L['name']
+        for _, t in gen.iter_tests(spec):
+            t.setdefault('acts', {}).setdefault('tearDown', []).append(['probe_private'])
     # (the XML wrapper sits between the result object and the formatter: captured output must pass through it)
     opts['xml'] = draw(st.sampled_from([False, False, False, True]))
     if opts['buffer']:
@@ -65,6 +74,12 @@ def oracle(spec, opts, tokens, run):
     lines = parse._GLUE.sub(lambda m: m.group(1) + '\n', out).split('\n')
     # stream identity at every probe
     for e in run.trace:
+        if e['ev'] == 'probe_private' and not e['ok']:
+            viol.append(('C13/streams-replaced-without-buffer', 'at %s the private streams a layer installed in its '
+                         'testSetUp are no longer sys.stdout/sys.stderr' % e['where']))
+            break
+        if spec.get('layer_swaps'):
+            continue      # (identity with the original objects is the layer's own business in these worlds)
         if e['ev'] == 'L' and e['h'] in ('testSetUp', 'testTearDown') and e['ph'] == 'enter' and 'so' in e:
             if not (e['so'] and e['se']):
                 viol.append(('C13/streams-replaced-between-tests/%s' % e['h'],
